@@ -1008,7 +1008,7 @@ def gen_cases(rng, tier, scale=1.0):
     for sname in E_SHAPES:
         for _ in range(reps_e):
             flat = sname in ("anyof", "oneof", "allof", "notfield") or sname.startswith("shared_")
-            add("E", sname, 2, max_pre=max_pre, cap=100 if quick else 700, **({"yield": "sitelines"} if flat else {}))
+            add("E", sname, 2, max_pre=max_pre, cap=100 if quick else 500, **({"yield": "sitelines"} if flat else {}))
     # fixed operation mixes (values still random): cold-cache serialization races, scalar assignment, wrappers
     for sname, ops in CANONICAL_B:
         ths = []
@@ -1024,5 +1024,5 @@ def gen_cases(rng, tier, scale=1.0):
     reps_b = max(1, int((1 if quick else 4) * scale))
     for sname in ALL_SHAPES:
         for _ in range(reps_b):
-            add("B", sname, 3 if rng.random() < 0.2 else 2, max_pre=max_pre, nsched=25 if quick else 100)
+            add("B", sname, 3 if rng.random() < 0.2 else 2, max_pre=max_pre, nsched=25 if quick else 80)
     return cases
